@@ -1,7 +1,7 @@
 (* Duplicate bridge scoring, Law 77, written as formulas (no tables) and without
    reference to the code or to Gen.  Independent oracle for C07/C08. *)
 From BE Require Export Model.Basics.
-Open Scope Z_scope.
+Local Open Scope Z_scope.
 
 Definition trick_score (s : strain) (lv : Z) : Z :=
   match s with Tr Cl | Tr Di => 20 * lv | Tr He | Tr Sp => 30 * lv | NT => 30 * lv + 10 end.
